@@ -642,6 +642,14 @@ impl Session {
             min(req.mtu, MAX_MTU)
         };
 
+        if mtu < MIN_MTU || req.window_size == 0 {
+            warn!(
+                "RX handshake integrity failure: MTU {} / window size {} out of range",
+                mtu, req.window_size
+            );
+            return Err(ErrorCode::InvalidData.into());
+        }
+
         // Remove the header as we need to report back the payload MTU
         // and we'll use the payload MTU anyway for all operations
         let mtu = mtu - GATT_HEADER_SIZE as u16;
